@@ -69,9 +69,14 @@ def setup_keys():
         make_key("hs5", "oct64", "HS512"); make_key("ec3", "P-384", "ES384"); make_key("ec5", "P-521", "ES512"); make_key("ed4", "ed448", "EdDSA"); make_key("k1", "secp256k1", "ES256K"); make_key("ps", "rsa2048", "PS256")
 
 
-GOOD, BAD = [], []
+GOOD, BAD, LONG_GOOD = [], [], []
 def setup_tokens():
     k = KEYS["hs"]
+    for n in (9000, 20000):   # tokens beyond a stdio buffer
+        rc, t = helper(["token", k["src"], "HS256", json.dumps({"big": "x" * n})]); LONG_GOOD.append(t)
+    for n in range(6060, 6078):   # and with a total length right at BUFSIZ (8192)
+        rc, t = helper(["token", k["src"], "HS256", json.dumps({"b": "x" * n})])
+        if len(t) in (8191, 8192, 8193): LONG_GOOD.append(t)
     for i in range(40):
         rc, t = helper(["token", k["src"], "HS256", json.dumps({"n": i, "sub": "c20"})]); GOOD.append(t)
     for i in range(40):
@@ -92,12 +97,17 @@ def run_verify_case(case):
         x = (x * 6364136223846793005 + 1442695040888963407) % (1 << 64); j = x % (i + 1); idxs[i], idxs[j] = idxs[j], idxs[i]
     bad_positions = set(idxs[:nbad])
     for i in range(n): toks.append(BAD[(i + seedv) % len(BAD)] if i in bad_positions else GOOD[(i + seedv) % len(GOOD)])
+    nlong = 0
+    if case.get("long") and n:   # some of the good tokens are long ones (still valid)
+        for j, i in enumerate([i for i in range(n) if i not in bad_positions][: 1 + seedv % 3]):
+            toks[i] = LONG_GOOD[(seedv + j) % len(LONG_GOOD)]; nlong += 1
     args = ["-k", KEYS["hs"]["jwk_priv_alg"]] + (["-q"] if quiet else [])
     if how == "args": rc, out, err, san = tool("jwt-verify", args + toks)
-    else: rc, out, err, san = tool("jwt-verify", args + ["-"], stdin=("\n".join(toks) + ("\n" if toks else "")).encode())
+    else: rc, out, err, san = tool("jwt-verify", args + ["-"], stdin=("\n".join(toks) + ("\n" if toks and not (seedv & 1) else "")).encode())   # last line with or without newline
     stats["evaluations"] += 1; cls("verify-lists"); cls("verify-tokens", n)
     if nbad >= 255: nontrivial(("verify", n, nbad, how, quiet)); cls("lists-with>=255-failing-tokens")
-    elif 0 < nbad: nontrivial(("verify", n, nbad, how, quiet, seedv % 7))
+    elif 0 < nbad or nlong: nontrivial(("verify", n, nbad, how, quiet, seedv % 7, nlong))
+    if nlong: cls("lists-with-long-valid-tokens")
     sample({"tool": "jwt-verify", "tokens": n, "failing": nbad, "how": how, "quiet": quiet, "exit": rc})
     if san: raise Fail("C20:sanitizer-report:jwt-verify", err[-1500:], case)
     if n == 0:
@@ -105,7 +115,7 @@ def run_verify_case(case):
         return
     want_zero = nbad == 0
     if (rc == 0) != want_zero:
-        raise Fail("C20:jwt-verify:exit-status:" + ("zero-although-tokens-failed" if rc == 0 else "nonzero-although-all-verified"), f"{n} tokens, {nbad} failing, exit status {rc}", case)
+        raise Fail("C20:jwt-verify:exit-status:" + ("zero-although-tokens-failed" if rc == 0 else "nonzero-although-all-verified" + (":long-token-on-" + how if nlong else "")), f"{n} tokens, {nbad} failing, {nlong} long valid tokens, exit status {rc}", case)
 
 
 # ---------------------------------------------------------------- (2) option spellings, generate -> verify
@@ -234,7 +244,7 @@ def run_property(fn, strategy, n, name):
 
 
 verify_cases = st.fixed_dictionaries({"n": st.one_of(st.sampled_from(LENS), st.integers(0, 1100)), "nbad": st.one_of(st.sampled_from([0, 0, 1, 2, 255, 256, 257, 511, 512, 513, 768, 1024]), st.integers(0, 1100)),
-                                      "how": st.sampled_from(["args", "stdin"]), "quiet": st.booleans(), "mix": st.integers(0, 1 << 30)})
+                                      "how": st.sampled_from(["args", "stdin"]), "quiet": st.booleans(), "mix": st.integers(0, 1 << 30), "long": st.booleans()})
 sty = st.integers(0, 3)
 def genver_cases():
     return st.fixed_dictionaries({"key": st.sampled_from(sorted(KEYS)), "key_has_alg": st.booleans(), "always_alg": st.booleans(), "prov": st.sampled_from(["openssl", "gnutls"]), "k_style_g": sty, "a_style_g": sty, "k_style_v": sty, "a_style_v": sty,
@@ -265,6 +275,11 @@ def main():
                     try: guarded(run_verify_case, case)
                     except AssertionError:
                         f = last.get("f"); stats["violations"].append({"signature": f.sig, "what": f.what, "replay": {"kind": "verify", "case": f.case}})
+    if A.worker in (2, 3):
+        case = {"n": 3, "nbad": 0, "how": "stdin" if A.worker == 2 else "args", "quiet": True, "mix": A.seed, "long": True}
+        try: guarded(run_verify_case, case)
+        except AssertionError:
+            f = last.get("f"); stats["violations"].append({"signature": f.sig, "what": f.what, "replay": {"kind": "verify", "case": f.case}})
     if not stats["violations"]: run_property(run_genver_case, genver_cases(), ng, "genver")
     if not stats["violations"]: run_property(run_convert_case, convert_cases, nc, "convert")
     # usage / list options of every tool in both spellings
